@@ -6,6 +6,7 @@ import (
 	"bytes"
 	"context"
 	"fmt"
+	"golang.org/x/tools/go/ssa"
 	"os"
 	"os/exec"
 	"path/filepath"
@@ -29,6 +30,8 @@ type Obligation struct {
 	Prelude string // extra SMT text (lemma files)
 	RawSMT  string // complete query (lemmas)
 	WantSat bool   // cover / vacuity queries: success means sat
+	PathSt  *State // the symbolic path the obligation belongs to (for replay)
+	Fn      *ssa.Function
 
 	Status string // discharged | refuted | undecided | covered | vacuous
 	Solver string
